@@ -1,7 +1,8 @@
 (* C13: executable model of client/rule.go (ruleProcessPoints, the error
-   bookkeeping of processError, ruleRunActions, ruleInactiveActions and the
-   [run] closure of RuleClient.Run for a non-empty batch of points) and of the
-   property's specification.  No proofs here.
+   bookkeeping of processError, ruleRunActions, ruleInactiveActions, the
+   [run] closure of RuleClient.Run for a non-empty batch of points and the
+   configuration-change path of Run: merge of new points for the rule or one
+   of its children, then run("", nil)) and of the property's specification.  No proofs here.
 
    float64 values are carried as their IEEE-754 bit patterns (N below 2^64);
    Go strings are byte strings.  The schedule window test (activeForTime,
@@ -35,6 +36,12 @@ Definition s_error := Eval compute in bs "error".
 Definition s_setValue := Eval compute in bs "setValue".
 Definition s_notify := Eval compute in bs "notify".
 Definition s_playAudio := Eval compute in bs "playAudio".
+Definition s_description := Eval compute in bs "description".
+Definition s_value := Eval compute in bs "value".
+Definition s_valueText := Eval compute in bs "valueText".
+Definition s_operator := Eval compute in bs "operator".
+Definition s_start := Eval compute in bs "start".
+Definition s_end := Eval compute in bs "end".
 Definition e_vtype := Eval compute in bs "unknown value type: ".
 Definition e_sched := Eval compute in bs "Error parsing schedule: ".
 Definition e_nodeid := Eval compute in bs "Error, node action nodeID must be set".
@@ -285,22 +292,115 @@ Definition inactive_loop (rid : bytes) (l : list action) : list action * list ou
   (map (fun a => set_a_active a false) l,
    map (fun a => mk_out 3 rid (a_id (a_cfg a)) s_active 0 [] []) l).
 
-(* the [run] closure of RuleClient.Run for a non-empty batch *)
-Definition step (r : rule) (node : bytes) (pts : list point) : rule * list out :=
-  let '(r1, o1, active, changed) := process r node pts in
-  if negb changed then (r1, o1)
-  else if active then
+(* the tail of the [run] closure of RuleClient.Run: the action list of the
+   state [active] runs, the opposite list is marked inactive *)
+Definition run_lists (r1 : rule) (active : bool) : rule * list out :=
+  if active then
     let '(acts', rerr', o2) :=
       acts_loop (r_id r1) (fun l => found_err (r_conds r1) l (r_iacts r1)) (r_error r1) [] (r_acts r1) in
     let '(iacts', o3) := inactive_loop (r_id r1) (r_iacts r1) in
     ({| r_id := r_id r1; r_active := r_active r1; r_error := rerr'; r_conds := r_conds r1;
-        r_acts := acts'; r_iacts := iacts' |}, o1 ++ o2 ++ o3)
+        r_acts := acts'; r_iacts := iacts' |}, o2 ++ o3)
   else
     let '(iacts', rerr', o2) :=
       acts_loop (r_id r1) (fun l => found_err (r_conds r1) (r_acts r1) l) (r_error r1) [] (r_iacts r1) in
     let '(acts', o3) := inactive_loop (r_id r1) (r_acts r1) in
     ({| r_id := r_id r1; r_active := r_active r1; r_error := rerr'; r_conds := r_conds r1;
-        r_acts := acts'; r_iacts := iacts' |}, o1 ++ o2 ++ o3).
+        r_acts := acts'; r_iacts := iacts' |}, o2 ++ o3).
+
+(* the [run] closure of RuleClient.Run for a non-empty batch: nothing more
+   happens unless ruleProcessPoints reports a change of state *)
+Definition step (r : rule) (node : bytes) (pts : list point) : rule * list out :=
+  let '(r1, o1, active, changed) := process r node pts in
+  if negb changed then (r1, o1)
+  else let '(r2, o2) := run_lists r1 active in (r2, o1 ++ o2).
+
+(* ---------- the configuration-change path of Run ----------
+   The manager hands the client points for the rule node or one of its
+   children (channel newPoints); Run merges them into the configuration
+   (data.MergePoints) and calls run("", nil).  Modelled for the points listed
+   in [cfg_in_scope]: a scalar field takes the value / text of the last point
+   of its type (Decode: one group per type, setVal for each point in order; the
+   key is ignored for a scalar field), the description is not part of the
+   model's configuration, and an edit of a schedule's start or end replaces the
+   opaque schedule handle by [sch], the handle the harness assigns to the
+   condition's (start, end, weekdays, dates) after the merge. *)
+Definition set_c_cfg (c : cond) (k : ccfg) : cond := {| c_cfg := k; c_active := c_active c; c_error := c_error c |}.
+Definition set_a_cfg (a : action) (k : acfg) : action := {| a_cfg := k; a_active := a_active a; a_error := a_error a |}.
+
+Definition ccfg_set_value (k : ccfg) (v : N) : ccfg :=
+  {| c_id := c_id k; c_ctype := c_ctype k; c_node := c_node k; c_ptype := c_ptype k; c_pkey := c_pkey k; c_vtype := c_vtype k;
+     c_op := c_op k; c_value := v; c_vtext := c_vtext k; c_sched := c_sched k |}.
+Definition ccfg_set_vtext (k : ccfg) (t : bytes) : ccfg :=
+  {| c_id := c_id k; c_ctype := c_ctype k; c_node := c_node k; c_ptype := c_ptype k; c_pkey := c_pkey k; c_vtype := c_vtype k;
+     c_op := c_op k; c_value := c_value k; c_vtext := t; c_sched := c_sched k |}.
+Definition ccfg_set_op (k : ccfg) (t : bytes) : ccfg :=
+  {| c_id := c_id k; c_ctype := c_ctype k; c_node := c_node k; c_ptype := c_ptype k; c_pkey := c_pkey k; c_vtype := c_vtype k;
+     c_op := t; c_value := c_value k; c_vtext := c_vtext k; c_sched := c_sched k |}.
+Definition ccfg_set_sched (k : ccfg) (h : N) : ccfg :=
+  {| c_id := c_id k; c_ctype := c_ctype k; c_node := c_node k; c_ptype := c_ptype k; c_pkey := c_pkey k; c_vtype := c_vtype k;
+     c_op := c_op k; c_value := c_value k; c_vtext := c_vtext k; c_sched := h |}.
+Definition acfg_set_value (k : acfg) (v : N) : acfg :=
+  {| a_id := a_id k; a_action := a_action k; a_node := a_node k; a_ptype := a_ptype k; a_value := v; a_vtext := a_vtext k |}.
+Definition acfg_set_vtext (k : acfg) (t : bytes) : acfg :=
+  {| a_id := a_id k; a_action := a_action k; a_node := a_node k; a_ptype := a_ptype k; a_value := a_value k; a_vtext := t |}.
+
+Definition is_sched_edit (p : point) : bool := bytes_eqb (p_type p) s_start || bytes_eqb (p_type p) s_end.
+
+(* one point merged into a condition / an action *)
+Definition merge_ccfg (k : ccfg) (p : point) : ccfg :=
+  if bytes_eqb (p_type p) s_value then ccfg_set_value k (p_value p)
+  else if bytes_eqb (p_type p) s_valueText then ccfg_set_vtext k (p_text p)
+  else if bytes_eqb (p_type p) s_operator then ccfg_set_op k (p_text p)
+  else k.
+Definition merge_acfg (k : acfg) (p : point) : acfg :=
+  if bytes_eqb (p_type p) s_value then acfg_set_value k (p_value p)
+  else if bytes_eqb (p_type p) s_valueText then acfg_set_vtext k (p_text p)
+  else k.
+
+Definition merge_cond (pts : list point) (sch : option N) (c : cond) : cond :=
+  let k := fold_left merge_ccfg pts (c_cfg c) in
+  set_c_cfg c (match sch with
+               | Some h => if existsb is_sched_edit pts then ccfg_set_sched k h else k
+               | None => k
+               end).
+Definition merge_action (pts : list point) (a : action) : action := set_a_cfg a (fold_left merge_acfg pts (a_cfg a)).
+
+(* FindNodeInStruct: the first element with the id *)
+Fixpoint upd_first {A} (f : A -> bool) (g : A -> A) (l : list A) : option (list A) :=
+  match l with
+  | [] => None
+  | x :: l' => if f x then Some (g x :: l')
+               else match upd_first f g l' with Some l'' => Some (x :: l'') | None => None end
+  end.
+
+Definition merge (r : rule) (node : bytes) (pts : list point) (sch : option N) : rule :=
+  if is_empty node then r                      (* an empty id matches no node: MergePoints fails, nothing is merged *)
+  else if bytes_eqb node (r_id r) then r       (* description of the rule *)
+  else
+    match upd_first (fun c => bytes_eqb (c_id (c_cfg c)) node) (merge_cond pts sch) (r_conds r) with
+    | Some cs => {| r_id := r_id r; r_active := r_active r; r_error := r_error r; r_conds := cs; r_acts := r_acts r; r_iacts := r_iacts r |}
+    | None =>
+        match upd_first (fun a => bytes_eqb (a_id (a_cfg a)) node) (merge_action pts) (r_acts r) with
+        | Some l => {| r_id := r_id r; r_active := r_active r; r_error := r_error r; r_conds := r_conds r; r_acts := l; r_iacts := r_iacts r |}
+        | None =>
+            match upd_first (fun a => bytes_eqb (a_id (a_cfg a)) node) (merge_action pts) (r_iacts r) with
+            | Some l => {| r_id := r_id r; r_active := r_active r; r_error := r_error r; r_conds := r_conds r; r_acts := r_acts r; r_iacts := l |}
+            | None => r                        (* unknown node: MergePoints fails, nothing is merged *)
+            end
+        end
+    end.
+
+(* the point run("", nil) sends through ruleProcessPoints; [t] is time.Now() *)
+Definition trigger_point (t : Z) : point := {| p_type := s_trigger; p_key := []; p_time := t; p_value := 0; p_text := [] |}.
+
+(* case newPoints of Run: merge, then run("", nil): the trigger point at the
+   rule's own id, the [changed] result is dropped, the lists always run *)
+Definition step_cfg (r : rule) (node : bytes) (pts : list point) (sch : option N) (t : Z) : rule * list out :=
+  let rm := merge r node pts sch in
+  let '(r1, o1, active, _) := process rm (r_id rm) [trigger_point t] in
+  let '(r2, o2) := run_lists r1 active in
+  (r2, o1 ++ o2).
 
 (* a history: batches of points, each from one node *)
 Definition batch := (bytes * list point)%type.
@@ -448,6 +548,24 @@ Definition step_ok (rb ra : rule) (o : list out) : Prop :=
   Forall2 (fun a a' => a_cfg a' = a_cfg a /\ a_active a' = if changed then negb (r_active ra) else a_active a)
           (r_iacts rb) (r_iacts ra).
 
+(* the same for a configuration-change event, given the configuration after the
+   merge ([rm]), after the event ([ra]) and the points sent ([o]): the action
+   list of the rule's state after the event has run once and the opposite list
+   has been marked inactive -- whether or not the state differs from the one
+   before (the code does not look at [changed] on this path) *)
+Definition cfg_step_ok (rm ra : rule) (o : list out) : Prop :=
+  filter is_action_out o = action_points (r_id rm) (r_acts rm) (r_iacts rm) (r_active ra) /\
+  Forall2 (fun a a' => a_cfg a' = a_cfg a /\ a_active a' = r_active ra) (r_acts rm) (r_acts ra) /\
+  Forall2 (fun a a' => a_cfg a' = a_cfg a /\ a_active a' = negb (r_active ra)) (r_iacts rm) (r_iacts ra).
+
+(* the merge leaves identities and states alone: same rule id, state and error,
+   and element by element the same ids, active flags and errors *)
+Definition same_shape (r rm : rule) : Prop :=
+  r_id rm = r_id r /\ r_active rm = r_active r /\ r_error rm = r_error r /\
+  Forall2 (fun c c' => c_id (c_cfg c') = c_id (c_cfg c) /\ c_active c' = c_active c /\ c_error c' = c_error c) (r_conds r) (r_conds rm) /\
+  Forall2 (fun a a' => a_id (a_cfg a') = a_id (a_cfg a) /\ a_active a' = a_active a /\ a_error a' = a_error a) (r_acts r) (r_acts rm) /\
+  Forall2 (fun a a' => a_id (a_cfg a') = a_id (a_cfg a) /\ a_active a' = a_active a /\ a_error a' = a_error a) (r_iacts r) (r_iacts rm).
+
 (* ---------- case checker ---------- *)
 Definition out_eqb (a b : out) : bool :=       (* the ghost tag is not compared *)
   bytes_eqb (o_node a) (o_node b) && bytes_eqb (o_type a) (o_type b) && bytes_eqb (o_key a) (o_key b) &&
@@ -477,9 +595,22 @@ Record obs := {
   ob_failed : bool           (* the hook reported an error or a panic *)
 }.
 
+(* a configuration-change event as observed: the node and points handed to the
+   client through newPoints, the schedule handle after the merge when the
+   points edit a schedule, an instant of the interval in which the client read
+   time.Now() (the harness makes sure no schedule boundary lies in that
+   interval), the client's configuration afterwards and the points it sent *)
+Record cobs := {
+  co_node : bytes; co_pts : list point; co_sched : option N; co_time : Z;
+  co_rule : rule; co_sent : list out; co_failed : bool
+}.
+
+Inductive sobs := SBatch (s : obs) | SConfig (s : cobs).
+
 Inductive case :=
 | CHistory (mode : N) (r : rule) (wtab : list (N * Z * wres)) (steps : list obs)
-| CFcmp (a b : N) (lt gt eq ne : bool).
+| CFcmp (a b : N) (lt gt eq ne : bool)
+| CEvents (r : rule) (wtab : list (N * Z * wres)) (steps : list sobs).   (* batches and configuration changes through Run *)
 
 Fixpoint wlookup (tab : list (N * Z * wres)) (h : N) (t : Z) : wres :=
   match tab with
@@ -542,6 +673,73 @@ Definition corr_step (w : window_t) (mode : N) (r : rule) (s : obs) : bool :=
     let '(r', o) := step text_cmp w r (ob_node s) (ob_pts s) in
     rule_eqb r' (ob_rule s) && list_eqb out_eqb o (ob_sent s).
 
+(* the configuration-change points the model of the merge covers, for a rule
+   whose ids tell the target apart *)
+Definition type_in (l : list bytes) (p : point) : bool := mem (p_type p) l.
+Definition cfg_in_scope (r : rule) (node : bytes) (pts : list point) : bool :=
+  let cids := map (fun c => c_id (c_cfg c)) (r_conds r) in
+  let aids := map (fun a => a_id (a_cfg a)) (r_acts r ++ r_iacts r) in
+  (length (filter (bytes_eqb node) (r_id r :: cids ++ aids)) <=? 1)%nat &&
+  if bytes_eqb node (r_id r) then forallb (type_in [s_description]) pts
+  else if mem node cids then forallb (type_in [s_description; s_value; s_valueText; s_operator; s_start; s_end]) pts
+  else if mem node aids then forallb (type_in [s_description; s_value; s_valueText]) pts
+  else true.
+
+(* specification of one configuration-change event, evaluated on what the
+   implementation did ([r] before the event, [co_rule s] after it): every
+   condition the property speaks about is active exactly when the trigger point
+   (type trigger, time [co_time s], at the rule's id) satisfies it -- as it is
+   configured after the event -- or unchanged when the trigger does not concern
+   it; the rule is active exactly when all conditions are; and when the rule's
+   state differs from the one before the event, the action list of the new
+   state has run exactly once (points of [action_points], every action of the
+   list marked active) and every action of the opposite list is marked inactive
+   (its active = 0 point sent once, the flag cleared in the configuration) *)
+Definition spec_cfg (w : window_t) (r : rule) (s : cobs) : bool :=
+  let r' := co_rule s in
+  let es := [(r_id r, {| p_type := s_trigger; p_key := []; p_time := co_time s; p_value := 0; p_text := [] |})] in
+  negb (co_failed s) &&
+  bytes_eqb (r_id r) (r_id r') &&
+  (* conditions *)
+  (length (r_conds r) =? length (r_conds r'))%nat &&
+  forallb (fun cc => let '(c, c') := cc in
+                     bytes_eqb (c_id (c_cfg c)) (c_id (c_cfg c')) &&
+                     (negb (in_scope (c_cfg c')) ||
+                      Bool.eqb (c_active c') (spec_active w (c_cfg c') (c_active c) es)))
+          (combine (r_conds r) (r_conds r')) &&
+  (* the rule *)
+  Bool.eqb (r_active r') (forallb c_active (r_conds r')) &&
+  (* actions *)
+  (length (r_acts r) =? length (r_acts r'))%nat && (length (r_iacts r) =? length (r_iacts r'))%nat &&
+  forallb (fun aa => bytes_eqb (a_id (a_cfg (fst aa))) (a_id (a_cfg (snd aa)))) (combine (r_acts r ++ r_iacts r) (r_acts r' ++ r_iacts r')) &&
+  (if negb (wf_rule r') then true
+   else if Bool.eqb (r_active r) (r_active r') then true
+   else
+     let due := action_points (r_id r') (r_acts r') (r_iacts r') (r_active r') in
+     let universe := action_points (r_id r') (r_acts r') (r_iacts r') true ++ action_points (r_id r') (r_acts r') (r_iacts r') false in
+     forallb (fun e => (count_out e (co_sent s) =? count_out e due)%nat) universe &&
+     forallb (fun a' => Bool.eqb (a_active a') (r_active r')) (r_acts r') &&
+     forallb (fun a' => Bool.eqb (a_active a') (negb (r_active r'))) (r_iacts r')).
+
+Definition corr_cfg (w : window_t) (r : rule) (s : cobs) : bool :=
+  negb (co_failed s) &&
+  let '(r', o) := step_cfg text_cmp w r (co_node s) (co_pts s) (co_sched s) (co_time s) in
+  rule_eqb r' (co_rule s) && list_eqb out_eqb o (co_sent s).
+
+Definition sobs_rule (s : sobs) : rule := match s with SBatch s => ob_rule s | SConfig s => co_rule s end.
+Definition spec_sobs (w : window_t) (r : rule) (s : sobs) : bool :=
+  match s with SBatch s => spec_step w 0 r s | SConfig s => spec_cfg w r s end.
+Definition corr_sobs (w : window_t) (r : rule) (s : sobs) : bool :=
+  match s with SBatch s => corr_step w 0 r s | SConfig s => corr_cfg w r s end.
+Definition scope_sobs (r : rule) (s : sobs) : bool :=
+  match s with SBatch _ => true | SConfig s => cfg_in_scope r (co_node s) (co_pts s) end.
+
+Fixpoint check_esteps (f : rule -> sobs -> bool) (r : rule) (steps : list sobs) : bool :=
+  match steps with
+  | [] => true
+  | s :: steps' => f r s && check_esteps f (sobs_rule s) steps'
+  end.
+
 Fixpoint check_steps (f : rule -> obs -> bool) (r : rule) (steps : list obs) : bool :=
   match steps with
   | [] => true
@@ -556,6 +754,10 @@ Definition check_case (c : case) : N :=
   | CFcmp a b lt gt eq ne =>
       let ok := Bool.eqb (f_lt a b) lt && Bool.eqb (f_gt a b) gt && Bool.eqb (f_eq a b) eq && Bool.eqb (f_ne a b) ne in
       code ok true
+  | CEvents r wtab steps =>
+      let w := wlookup wtab in
+      if negb (check_esteps scope_sobs r steps) then 99     (* an event outside the model of the merge *)
+      else code (check_esteps (corr_sobs w) r steps) (check_esteps (spec_sobs w) r steps)
   end.
 
 (* ---------- decoding a case handed over by the harness ---------- *)
@@ -626,6 +828,22 @@ Definition wentry_of_val (v : val) : option (N * Z * wres) :=
   | _ => None
   end.
 
+Definition cobs_of_val (v : val) : option cobs :=
+  match v with
+  | VL [nd; pts; sch; t; r; sent; failed] =>
+      nd <- get_b nd ;; pts <- get_list point_of_val pts ;; sch <- get_opt get_n sch ;; t <- get_z t ;; r <- rule_of_val r ;;
+      sent <- get_list out_of_val sent ;; failed <- get_bool failed ;;
+      Some {| co_node := nd; co_pts := pts; co_sched := sch; co_time := t; co_rule := r; co_sent := sent; co_failed := failed |}
+  | _ => None
+  end.
+
+Definition sobs_of_val (v : val) : option sobs :=
+  match v with
+  | VL [VN 0; s] => s <- obs_of_val s ;; Some (SBatch s)
+  | VL [VN 1; s] => s <- cobs_of_val s ;; Some (SConfig s)
+  | _ => None
+  end.
+
 Definition case_of_val (v : val) : option case :=
   match v with
   | VL [VN 0; mode; r; wtab; steps] =>
@@ -634,6 +852,9 @@ Definition case_of_val (v : val) : option case :=
   | VL [VN 1; a; b; lt; gt; eq; ne] =>
       a <- get_bits a ;; b <- get_bits b ;; lt <- get_bool lt ;; gt <- get_bool gt ;; eq <- get_bool eq ;; ne <- get_bool ne ;;
       Some (CFcmp a b lt gt eq ne)
+  | VL [VN 2; r; wtab; steps] =>
+      r <- rule_of_val r ;; wtab <- get_list wentry_of_val wtab ;; steps <- get_list sobs_of_val steps ;;
+      Some (CEvents r wtab steps)
   | _ => None
   end.
 
